@@ -10,22 +10,14 @@ def classify(case, kind):
         return cls
     diags = case.get("diagnostics", [])
     label = case.get("label", "")
-    feats = case.get("features", [])
-    msgs = [d.get("msg", "") for d in diags]
-    if (diags and all(m.startswith("ArgumentTypeNonNullAgainstInterface") for m in msgs)
-            and (label == "x_extra_nonnull_default" or (label == "valid" and "extra_nonnull_arg_with_default" in feats))):
-        cls.add("additional-nonnull-argument-with-default-rejected")
     # the mutations a case went through: its label, or for a multi-fault mix the labels listed in `site`
     muts = {label}
     if label == "multi":
         muts = {part.split("@")[0] for part in case.get("site", "").split("+") if part}
-    no_claim = {"x_cross_kind_dup", "x_dup_directive_def", "x_ext_without_original", "x_dup_dirarg_in_app"}
-    deviating = {"x_nested_type_recursion", "x_int_out_of_range"}
-    if not diags and muts & deviating and muts <= (no_claim | deviating):
-        if "x_nested_type_recursion" in muts:
-            cls.add("directive-recursion-through-nested-input-type-accepted")
-        if "x_int_out_of_range" in muts:
-            cls.add("int-literal-out-of-32-bit-range-accepted")
+    no_claim = {"x_cross_kind_dup", "x_dup_directive_def", "x_ext_without_original", "x_dup_dirarg_in_app",
+                "x_empty_object", "x_empty_union", "x_multi_schema"}
+    if not diags and "x_nested_type_recursion" in muts and muts <= (no_claim | {"x_nested_type_recursion"}):
+        cls.add("directive-recursion-through-nested-input-type-accepted")
     return cls
 
 
